@@ -23,6 +23,10 @@ def run(ctx):
     num = 2000 if ctx.thorough else 300
     for name in ["Elastic", "Thermal", "MatSimu"]:
         lc.simulate_and_replay(ctx, name, lc.STORE_ACTS, num, 14, ctx.seed + 11, label="store")
+    # direction B: Save_Iter / Set_Iter events recorded while the repository's tests run, judged by Trace_Lifecycle.tla (AppendOnly, PureRead)
+    from harness import repo_trace
+
+    repo_trace.validate(ctx, ["tests/Simulations/"] if ctx.thorough else ["tests/Simulations/simu_test.py", "tests/Simulations/elastic_test.py"], "store")
     ctx.cov["rule"] = ("TLC simulation-mode behaviours over {Solve, SaveIter, SetFolder, SetIter, GetResults, SetMesh, SetAlgo, SetBc, Translate} replayed on real "
                        "simulations; after every action every stored iteration is re-read and compared with the snapshot taken when it was saved; "
                        "distinct = distinct (simulation type, action, preceding action)")
